@@ -8,6 +8,7 @@ import (
 	"crypto/sha256"
 	"encoding/binary"
 	"fmt"
+	tmversion "github.com/tendermint/tendermint/proto/tendermint/version"
 	"math/big"
 	"sort"
 	"time"
@@ -181,7 +182,22 @@ func (b *BlockSpec) BeginReq(chainID string, lastAppHash []byte) *abci.RequestBe
 			Time:            time.Unix(b.Time, 0).UTC(),
 			ProposerAddress: b.Proposer,
 			AppHash:         lastAppHash,
+			// a complete header, as the consensus engine sends it (the values are arbitrary but fixed per height)
+			Version:            tmversion.Consensus{Block: 11, App: 1},
+			DataHash:           sha256sum([]byte(fmt.Sprintf("data-%d", b.Height))),
+			ValidatorsHash:     sha256sum([]byte(fmt.Sprintf("vals-%d", b.Height))),
+			NextValidatorsHash: sha256sum([]byte(fmt.Sprintf("vals-%d", b.Height+1))),
+			ConsensusHash:      sha256sum([]byte("consensus-params")),
+			LastResultsHash:    sha256sum([]byte(fmt.Sprintf("results-%d", b.Height-1))),
+			EvidenceHash:       sha256sum([]byte(fmt.Sprintf("evidence-%d", b.Height))),
+			LastCommitHash:     sha256sum([]byte(fmt.Sprintf("commit-%d", b.Height-1))),
 		},
+	}
+	if b.Height > 1 {
+		req.Header.LastBlockId = tmproto.BlockID{
+			Hash:          sha256sum([]byte(fmt.Sprintf("blk-%d", b.Height-1))),
+			PartSetHeader: tmproto.PartSetHeader{Total: 1, Hash: sha256sum([]byte(fmt.Sprintf("parts-%d", b.Height-1)))},
+		}
 	}
 	for _, v := range b.Votes {
 		req.LastCommitInfo.Votes = append(req.LastCommitInfo.Votes, abci.VoteInfo{
